@@ -1,2 +1,24 @@
-From Coq Require Import List ZArith.
-From Gosk Require Import Base.Bytes Spec.X86Len.
+(** C18 - compact encodings are chosen where the ISA offers them.
+    [ok18 (m, st)]: the bytes the model emits for st in mode m are no longer than the shortest valid
+    encoding of the denoted instruction (Spec/X86Len.v: sign-extended imm8 form 83 /r ib,
+    accumulator-immediate forms, register-in-opcode MOV/PUSH/POP).  Closed by computation over the
+    re-tabulated FindEncoding table for MOV and the six ALU operations x every register of every
+    width x immediates on both sides of -128/127 (and further boundary values) x both modes, and
+    for PUSH/POP of every 16/32-bit register. *)
+From Coq Require Import List ZArith String Bool.
+From Gosk Require Import Base.Bytes Model.Ast Model.Asm Spec.X86Len Check.C01 Lemmas.SweepLemmas.
+Import ListNotations.
+Local Open Scope Z_scope.
+
+Theorem C18_reg_imm_shortest : forall c, In c sweep_ri -> ok18 c = true.
+Proof. apply forallb_forall. exact sweep_ri_short. Qed.
+Print Assumptions C18_reg_imm_shortest.
+
+Theorem C18_stack_shortest : forall c, In c sweep_stack -> ok18 c = true.
+Proof. apply forallb_forall. exact sweep_stack_short. Qed.
+Print Assumptions C18_stack_shortest.
+
+(* the boundary named by the property: ADD BX,-128 takes the sign-extended imm8 form *)
+Example C18_boundary : model_bytes 16 (SMnem "ADD" [ident "BX"; num (-128)])%string = Some [131; 195; 128]
+  /\ model_bytes 32 (SMnem "CMP" [ident "ESI"; num 127])%string = Some [131; 254; 127].
+Proof. split; vm_compute; reflexivity. Qed.
